@@ -191,6 +191,8 @@ pub fn gen_steps(rng: &mut Rng, max: usize, framing_headers: bool) -> Vec<Step> 
     (0..n)
         .map(|_| match rng.below(if framing_headers { 12 } else { 10 }) {
             0 => Step::Basic(gen_string(rng, 8).replace(':', ""), if rng.chance(1, 3) { None } else { Some(gen_string(rng, 8)) }),
+            // (a token is sent as given: blanks at its ends — ASCII or not — are part of it; seed C07-seed13)
+            1 if rng.chance(1, 4) => Step::Bearer(rng.pick(&["\u{a0}s3cr3t", "s3cr3t\u{3000}", " lead", "\u{2003}both\u{85}", "in ner", "\ttab"]).to_string()),
             1 => Step::Bearer((0..rng.range(1, 12)).map(|_| rng.range(0x21, 0x7e) as u8 as char).collect()),
             2 | 3 | 4 => Step::Append(rng.pick(&names).to_string(), gen_hval(rng)),
             10 => Step::Header(rng.pick(&["Transfer-Encoding", "transfer-encoding"]).to_string(), rng.pick(&[&b"chunked"[..], b"gzip", b"identity"]).to_vec()),
